@@ -3,6 +3,7 @@ use crate::fw::*;
 use serde_json::Value;
 
 pub mod c02;
+pub mod c06;
 pub mod c09;
 pub mod c10;
 pub mod e4;
@@ -12,6 +13,7 @@ pub fn run(id: &str, tier: Tier) -> i32 {
     match id {
         "C01" | "C03" | "C04" => mapmodel::run(id, tier),
         "C02" => c02::run(tier),
+        "C06" => c06::run(tier),
         "C09" => c09::run(tier),
         "C10" => c10::run(tier),
         "C11" => e4::run_c11(tier),
@@ -27,6 +29,7 @@ pub fn recheck(id: &str, case: &Value) -> Vec<String> {
     match id {
         "C01" | "C03" | "C04" => mapmodel::recheck(id, case),
         "C02" => c02::recheck(case),
+        "C06" => c06::recheck(case),
         "C09" => c09::recheck(case),
         "C10" => c10::recheck(case),
         "C11" => e4::recheck_c11(case),
